@@ -305,3 +305,25 @@ func (s *RecStream[T]) Ownership() error {
 
 // IsEnd reports whether err is the end-of-stream marker.
 func IsEnd(err error) bool { return err == stream.End }
+
+// ErrCause is the cause handed to every context the harnesses cancel or time out themselves. A context
+// that carries a cause still reports context.Canceled / context.DeadlineExceeded from Err(), and that is
+// what library calls are documented to return ("ctx.Err()"): a call that hands back the cause instead
+// (context.Cause) shows up as an unexpected error.
+var ErrCause = errors.New("harness: cancellation cause (never to be returned by the library)")
+
+// WithCancel is context.WithCancelCause with ErrCause as the cause.
+func WithCancel(parent context.Context) (context.Context, context.CancelFunc) {
+	ctx, cancel := context.WithCancelCause(parent)
+	return ctx, func() { cancel(ErrCause) }
+}
+
+// WithTimeout is context.WithTimeoutCause with ErrCause as the cause.
+func WithTimeout(parent context.Context, d time.Duration) (context.Context, context.CancelFunc) {
+	return context.WithTimeoutCause(parent, d, ErrCause)
+}
+
+// WithDeadline is context.WithDeadlineCause with ErrCause as the cause.
+func WithDeadline(parent context.Context, t time.Time) (context.Context, context.CancelFunc) {
+	return context.WithDeadlineCause(parent, t, ErrCause)
+}
